@@ -25,6 +25,7 @@ Core Lean only: this file is imported by the compiled driver.
 import Macaroon.Token.Concrete
 import Macaroon.Format.Header
 import Macaroon.Flyio.Scopes
+import Macaroon.Crypto.Symbolic
 
 namespace Macaroon
 namespace Bundle
@@ -32,6 +33,20 @@ namespace Bundle
 abbrev Str := List Char
 abbrev CS := List (Cav Bytes)
 abbrev M := Mac Bytes
+
+/- decidable equality of decoded macaroons (for `Cav` it is derived in Crypto/Symbolic.lean): used by
+`readsBack` below -/
+deriving instance DecidableEq for GNonce, Mac
+
+/-- the printed text of a freshly minted token reads back as the token that is stored.  `Attenuate`
+and `Discharge` keep the in-memory macaroon next to the text they print for it; in Go the two cannot
+differ (a resource set is a map: the in-memory value has no element order, the encoder sorts), in
+the model they differ exactly when a caller-supplied caveat is not in the canonical form the decoder
+produces (an unsorted resource-set list, …) or exceeds what the codec model reads back (nesting
+beyond the decoder's budget, lengths ≥ 2³²).  The model's `attenuate` / `discharge` are defined on
+the inputs for which this holds and fail closed on the others, so that "a token's macaroon is what its
+text decodes to" is an invariant of every bundle (`Lemmas/Bundle.lean: Synced`). -/
+def readsBack (bytes : Bytes) (m : M) : Bool := decide (Concrete.decode bytes = some m)
 
 /-! ### Tokens -/
 
@@ -374,7 +389,8 @@ def attMac (items : List (AddItem Bytes)) (m : M) : Option (Str × M × CS) :=
     | (c', none) =>
       match Concrete.encode c' with
       | (_, none) => none
-      | (c'', some bytes) => some (macString bytes, c'', c'.cavs.drop c.cavs.length)
+      | (c'', some bytes) =>
+        if readsBack bytes c'' then some (macString bytes, c'', c'.cavs.drop c.cavs.length) else none
 
 /-- the staged replacement of one permission token (`none` = this token failed) -/
 def attTok (items : List (AddItem Bytes)) : Tok → Option Tok
@@ -412,7 +428,7 @@ def dischargeOne (loc ka : Bytes) (cb : Discharger) (ticket rnd : Bytes) : Optio
       | (dm', none) =>
         match Concrete.encode dm' with
         | (_, none) => none
-        | (dm'', some bytes) => some (.unverified (macString bytes) dm'')
+        | (dm'', some bytes) => if readsBack bytes dm'' then some (.unverified (macString bytes) dm'') else none
 
 /-- which tickets `Discharge(loc, …)` works on -/
 inductive DischargeScope
